@@ -30,6 +30,7 @@ impl Read for Script {
 }
 
 pub fn run(case: &str) -> String {
+    crate::util::note_current(case);
     let f: Vec<&str> = case.split(' ').collect();
     let leftover = unhex(f[1]);
     let segs: Vec<Vec<u8>> = if f[2] == "-" { vec![] } else { f[2].split(',').map(unhex).collect() };
